@@ -641,6 +641,93 @@ def rust_arith(fns):
     return out
 
 
+def c_loops(body, macros=None):
+    """iteration domains of the simple counting `for` loops of a C function body: (lo, hi, inclusive) with endpoints as
+    integers or lower-cased names (`for (bits = max_length; bits != 0; bits--)` -> (1, 'max_length', True))"""
+    macros = macros or {}
+    out = []
+
+    def tok(t):
+        t = t.strip().strip("()").strip()
+        t = re.sub(r"^(?:s|state|strm|desc)\s*(?:->|\.)\s*", "", t)
+        if re.fullmatch(r"(0[xX][0-9a-fA-F]+|\d+)[uUlL]*", t):
+            return int(re.sub(r"[uUlL]+$", "", t), 0)
+        if re.fullmatch(r"[A-Za-z_]\w*", t):
+            v = macros.get(t)
+            return v if isinstance(v, int) else t.lower()
+        m = re.fullmatch(r"([A-Za-z_]\w*)\s*([+-])\s*(\d+)", t)
+        if m and isinstance(macros.get(m.group(1)), int):
+            return macros[m.group(1)] + (int(m.group(3)) if m.group(2) == "+" else -int(m.group(3)))
+        return None
+    for m in re.finditer(r"\bfor\s*\(\s*(\w+)\s*=\s*([^;]+);\s*(\w+)\s*(!=|>=|<=|>|<)\s*([^;]+);\s*(?:(\w+)\s*(\+\+|--)|(\+\+|--)\s*(\w+))\s*\)", body):
+        var, init, cv, op, bound = m.group(1), m.group(2), m.group(3), m.group(4), m.group(5)
+        sv, step = (m.group(6), m.group(7)) if m.group(6) else (m.group(9), m.group(8))
+        if cv != var or sv != var:
+            continue
+        a, b_ = tok(init), tok(bound)
+        if a is None or b_ is None:
+            continue
+        if step == "--":
+            if op in ("!=", ">") and b_ == 0:
+                out.append((1, a, True))
+            elif op == ">=" and isinstance(b_, int):
+                out.append((b_, a, True))
+        else:
+            if op == "<":
+                out.append((a, b_, False))
+            elif op == "<=":
+                out.append((a, b_, True))
+    return out
+
+
+def rust_ranges(fns):
+    """(lo, hi, inclusive) of every range constructed in the functions; endpoints as integers or sets of lower-cased names"""
+    out = []
+
+    def end(e):
+        e = mir.strip_casts(e)
+        v = None
+        if isinstance(e, tuple) and e and e[0] == "c" and isinstance(e[1], int):
+            return e[1]
+        names = set()
+        for x in mir.walk(e):
+            if isinstance(x, tuple) and x:
+                if x[0] == "f" and not str(x[2]).isdigit():
+                    names.add(str(x[2]).lower())
+                elif x[0] == "c" and len(x) > 2 and x[2]:
+                    names.add(str(x[2]).split("::")[-1].lower())
+                elif x[0] == "call" and isinstance(x[1], str):
+                    names.add(x[1].split("::")[-1].lower())
+        return frozenset(names) if names else None
+    for f in fns:
+        for c in f.live_calls(r"ops::range::RangeInclusive(?:<[^>]*>)?::new$"):
+            a = f.call_args(c)
+            if len(a) == 2:
+                out.append((end(a[0]), end(a[1]), True))
+        for bi, si, lhs, rv, st in f.assignments():
+            if bi in f.live and isinstance(rv, dict) and rv.get("k") == "agg" and str(rv.get("adt", "")).endswith("ops::range::Range"):
+                e = f.rvalue_expr(rv)
+                d = dict(e[3]) if len(e) > 3 else {}
+                if "start" in d and "end" in d:
+                    out.append((end(d["start"]), end(d["end"]), False))
+    return out
+
+
+def _loop_ok(lo, hi, incl, rr):
+    def same(c, r):
+        if isinstance(c, int):
+            return r == c
+        return isinstance(r, frozenset) and ((ALIAS.get(c, {c}) | {c}) & r)
+    for rlo, rhi, rincl in rr:
+        if not same(lo, rlo):
+            continue
+        if rincl == incl and same(hi, rhi):
+            return True
+        if isinstance(hi, int) and isinstance(rhi, int) and (hi + (0 if incl else -1)) == (rhi + (0 if rincl else -1)):
+            return True
+    return False
+
+
 def rust_callee_names(fns):
     out = set()
     for f in fns:
@@ -788,6 +875,14 @@ def check(ck, P, rule, only=None):
             ck.decide(fld not in root_toks, rule, "%s:no-test:%s" % (cname, fld), "does not test the caller's buffers",
                       "zlib-ng's %s never looks at strm->%s; %s now decides on it: a call that the reference accepts (a stream without "
                       "buffers attached yet) is answered differently" % (cname, fld, ", ".join(f.path.replace(Z, "") for f in fns)), where(fns[0]))
+        rr = None
+        for lo, hi, incl in table.get("loops", {}).get(key, []):
+            if rr is None:
+                rr = rust_ranges(allf)
+            n += 1
+            ck.decide(_loop_ok(lo, hi, incl, rr), rule, "%s:loop:%s..%s%s" % (cname, lo, "=" if incl else "", hi), "iteration domain kept",
+                      "zlib-ng's %s iterates over %s..%s%s; %s (with its helpers) no longer has a range with these ends: a loop of the reference "
+                      "covers a different domain" % (cname, lo, "=" if incl else "", hi, ", ".join(f.path.replace(Z, "") for f in fns)), where(fns[0]))
         rar = None
         for op, v in table.get("arith", {}).get(key, []):
             if rar is None:
